@@ -77,7 +77,8 @@ VALUE_TABLE = {
                  "near": ["(1)", {"list": ["1", "2"]}, "(1;2)", "(0;1;2;3;4;5;6;7;8;9)"]},
 }
 SPECIAL_INPUTS = [None, "", " ", {"list": [""]}, {"list": ["", "  "]}, {"list": []}, {"tuple": []},
-                  {"set": []}, {"iter": []}, {"set": [1]}, {"iter": [1, 2]}, "[a, b]", "[1, 2, 3]", "(1;2)", {"dict": {"a": 1}},
+                  {"set": []}, {"set": [1]},     # (no iterators: their text form holds an address)
+                  "[a, b]", "[1, 2, 3]", "(1;2)", {"dict": {"a": 1}},
                   {"list": [1, "a"]}, {"list": ["", "x"]}, {"tuple": [1, 2]}, "[(1;2),(3;4)]"]
 
 CARDS_GOOD = [None, 1, 2, 3, {"tuple": [None, 2]}, {"tuple": [1, None]}, {"tuple": [1, 3]},
